@@ -46,7 +46,12 @@ pub fn build() -> (Vec<u8>, Vec<u8>) {
     }
     let o = d.obj(10, 0, b"<< /Type /Page /Parent 26 0 R /MediaBox [0 0 1 1] >>");
     e.push((10, XEntry::InUse { off: o, gen: 0 }));
-    d.xref_table(&e, 27, "/Root 5 0 R", None, Split::Min);
+    // 30 and 31: /Pages nodes that name each other as /Parent
+    let o = d.obj(30, 0, b"<< /Type /Pages /Kids [] /Count 0 /Parent 31 0 R >>");
+    e.push((30, XEntry::InUse { off: o, gen: 0 }));
+    let o = d.obj(31, 0, b"<< /Type /Pages /Kids [] /Count 0 /Parent 30 0 R >>");
+    e.push((31, XEntry::InUse { off: o, gen: 0 }));
+    d.xref_table(&e, 32, "/Root 5 0 R", None, Split::Min);
     (d.buf, z)
 }
 
@@ -72,6 +77,11 @@ where
     let image = || ImageXObject::from_primitive(r.resolve(pr)?, &r);
     match step["call"].as_str().unwrap() {
         "get" => match step["typ"].as_str().unwrap() {
+            // members of the /Parent cycle: how much of the parent chain the loaded value holds is part of the answer
+            "P" if id >= 30 => match r.get::<PagesNode>(Ref::new(pr)) {
+                Ok(n) => match &*n { PagesNode::Tree(t) => if t.parent.is_some() { "ok+".into() } else { "ok-".into() }, _ => "ok".into() },
+                Err(e) => format!("err:{}", err_kind(&e)),
+            },
             "P" => ans(r.get::<PagesNode>(Ref::new(pr))),
             "VM" => ans(r.get::<Vec<MaybeRef<Dictionary>>>(Ref::new(pr))),
             "VR" => ans(r.get::<Vec<Ref<Dictionary>>>(Ref::new(pr))),
@@ -116,11 +126,13 @@ pub fn run(cases_path: &str, report_path: &str, _opts: &[String]) {
             rep.nontrivial += 1;
         }
         rep.execs += path.len() as u64;
+        let tol = case["tol"].as_bool().unwrap_or(false);
+        let po = || if tol { pdf::object::ParseOptions::tolerant() } else { pdf::object::ParseOptions::strict() };
         let obs = match (oc, sc) {
-            (true, true) => FileOptions::cached().load(bytes.clone()).map(|f| run_seq(f, path, &zl)),
-            (true, false) => FileOptions::uncached().cache(SyncCache::new(), NoCache).load(bytes.clone()).map(|f| run_seq(f, path, &zl)),
-            (false, true) => FileOptions::uncached().cache(NoCache, SyncCache::new()).load(bytes.clone()).map(|f| run_seq(f, path, &zl)),
-            (false, false) => FileOptions::uncached().load(bytes.clone()).map(|f| run_seq(f, path, &zl)),
+            (true, true) => FileOptions::cached().parse_options(po()).load(bytes.clone()).map(|f| run_seq(f, path, &zl)),
+            (true, false) => FileOptions::uncached().cache(SyncCache::new(), NoCache).parse_options(po()).load(bytes.clone()).map(|f| run_seq(f, path, &zl)),
+            (false, true) => FileOptions::uncached().cache(NoCache, SyncCache::new()).parse_options(po()).load(bytes.clone()).map(|f| run_seq(f, path, &zl)),
+            (false, false) => FileOptions::uncached().parse_options(po()).load(bytes.clone()).map(|f| run_seq(f, path, &zl)),
         };
         let obs = match obs {
             Ok(o) => o,
@@ -129,7 +141,7 @@ pub fn run(cases_path: &str, report_path: &str, _opts: &[String]) {
         // reference: every call alone on a fresh uncached document (same kind of error required)
         for (k, st) in path.iter().enumerate() {
             let callname = st["call"].as_str().unwrap();
-            let lone = FileOptions::uncached().load(bytes.clone()).map(|f| run_seq(f, &path[k..k + 1], &zl)).map(|v| v[0].clone()).unwrap_or_else(|_| "loaderr".into());
+            let lone = FileOptions::uncached().parse_options(po()).load(bytes.clone()).map(|f| run_seq(f, &path[k..k + 1], &zl)).map(|v| v[0].clone()).unwrap_or_else(|_| "loaderr".into());
             let ideal = st["ideal"].as_str().unwrap();
             if abstract_ans(callname, &lone) != ideal {
                 rep.fail("lone-answer-differs-from-spec", json!({"case_index": ci, "case": case, "step": k, "spec": ideal, "lone": lone}));
